@@ -240,6 +240,65 @@ theorem build_sound2 (loc : Bool) (A : Nat) (name : Bytes) (args : List Arg) (t 
           simp only [means2, hm, hden]
           exact finish_sound A t vs _ (denoteAll2_shapes hden) hok (hq vs hden) j hf
 
+omit hT in
+theorem get_total2 {k : Kind} {loc : Bool} {pos done : Nat} (hdn : done ≤ pos) {a : Arg} (hs : slotOk2 (tab lk) k a) :
+    (∃ v a' d', get k eval loc pos done a = .ok v a' d') ∨ (∃ a' d' e, get k eval loc pos done a = .stop a' d' (.error e)) := by
+  by_cases hk : k.evals = true
+  · obtain ⟨hv, _, _⟩ := hs (by rw [evaluated_eq]; exact hk)
+    rw [get_eq_post k hk]
+    rcases evalArg_cases hn hE (loc := loc) hdn hv with ⟨ev, a1, he, hea⟩ | ⟨e, a1, hea⟩
+    · rw [hea]
+      simp only
+      cases k <;> simp [Kind.evals] at hk <;> simp only [post] <;> (repeat' split) <;> simp
+    · rw [hea]; exact .inr ⟨_, _, _, rfl⟩
+  · have hk' : k.evals = false := by simpa using hk
+    cases k <;> simp [Kind.evals] at hk' <;> simp only [Front.get] <;> (repeat' split) <;> simp
+
+
+theorem conv_total2 (loc : Bool) : ∀ (ks : List Kind) (pos : Nat) (pre rest : List Arg) (done : Nat) (instr : Instr)
+    (vals0 : List Val), done ≤ pos → ks.length = rest.length → wellFormed2 (tab lk) ks rest →
+    (∃ A D I vs, conv eval loc ks pos pre rest done instr vals0 = .ok A D I vs) ∨
+    (∃ A D I e, conv eval loc ks pos pre rest done instr vals0 = .stop A D I (.error e)) := by
+  intro ks
+  induction ks with
+  | nil => intro pos pre rest done instr vals0 _ _ _; exact .inl ⟨pre.reverse ++ rest, done, instr, vals0.reverse, by simp [conv]⟩
+  | cons k ks ih =>
+    intro pos pre rest done instr vals0 hd hlen hw
+    cases rest with
+    | nil => simp at hlen
+    | cons a rest =>
+      obtain ⟨hslot, hw'⟩ := hw
+      simp only [conv]
+      rcases get_total2 hn hE (loc := loc) hd hslot with ⟨v, a', d', hg⟩ | ⟨a', d', e, hg⟩
+      · rw [hg]
+        simp only
+        have hd' : d' ≤ pos + 1 := (get_sound2 hn hT hE hd hslot hg).2.2
+        exact ih (pos + 1) _ rest d' _ _ hd' (by simpa using hlen) hw'
+      · rw [hg]; exact .inr ⟨_, _, _, _, rfl⟩
+
+/-- **T1, totality**: with every name defined the first `assemble` either completes or reports a diagnostic -/
+theorem build_total2 (loc : Bool) (A : Nat) (name : Bytes) (args : List Arg) (t : Instr) (hm : mnemonic name = some t)
+    (hw : wellFormed2 (tab lk) (sig t) args) :
+    (∃ i, build A name args eval loc = .completed i) ∨ (∃ d st, build A name args eval loc = .error d st) := by
+  unfold build
+  rw [hm]
+  simp only
+  unfold assemble
+  simp only [kinds_sig]
+  by_cases h1 : args.length > (sig t).length
+  · simp [h1]
+  · by_cases h2 : args.length < (sig t).length
+    · simp [h1, h2]
+    · have hlen : (sig t).length = args.length := by omega
+      simp only [h1, h2, if_false]
+      rcases conv_total2 hn hT hE loc (sig t) 0 [] args 0 t [] (Nat.le_refl _) hlen hw with ⟨a, d, ins, vs, hc⟩ | ⟨a, d, ins, e, hc⟩
+      · rw [hc]
+        simp only
+        cases hf : finish A ins vs (sig t).length with
+        | ok j => exact .inl ⟨_, rfl⟩
+        | error e => exact .inr ⟨_, _, rfl⟩
+      · rw [hc]; exact .inr ⟨_, _, rfl⟩
+
 end
 
 end Trion.C04
